@@ -68,7 +68,10 @@ def _cases(draw):
         cats = draw(st.lists(st.sampled_from(pool), min_size=1, max_size=4, unique=True))
         variants.append({"cats": sorted(cats), "split": draw(st.lists(st.integers(1, n - 1), min_size=1, max_size=2, unique=True)),
                          "output_mult": draw(st.sampled_from([2, 3, 1.5, 2.5])), "sched": draw(st.lists(st.integers(0, 11), min_size=3, max_size=8)),
-                         "salt": draw(st.integers(1, 10**6)), "drop_add": draw(st.integers(0, 2)), "remove": draw(st.integers(0, nt - 1)), "policy": draw(st.sampled_from(["MyopicNaiveGreedyDecision", "RandomDecision"]))})
+                         "salt": draw(st.integers(1, 10**6)),
+                         # a run call may ask for a time that is not on the step grid: it advances the whole steps that fit
+                         "split_off": draw(st.lists(st.sampled_from([0.0, 0.0, 0.25, 0.5, 0.9]), min_size=2, max_size=2)),
+                         "drop_add": draw(st.integers(0, 2)), "remove": draw(st.integers(0, nt - 1)), "policy": draw(st.sampled_from(["MyopicNaiveGreedyDecision", "RandomDecision"]))})
     return {"start": iso(t0), "dt": dt, "n": n, "model": model, "filter_model": draw(st.sampled_from(["two_body", "special_perturbations"])), "adds": adds, "srp": draw(st.booleans()), "removal": removal, "integrator": draw(st.sampled_from(["RK45", "DOP853"])), "targets": targets,
             "events": events, "variants": variants}
 
@@ -160,9 +163,11 @@ def _run(c, v=None):
 
         sc.stepForward = stepped
         marks = sorted(set(v["split"])) + [n] if "split" in cats else [n]
-        for m in marks:
+        offs = [int(f * dt) for f in v.get("split_off", [0.0, 0.0])] if "split" in cats else []
+        for mi, m in enumerate(marks):
             if m * dt > float(sc.clock.time):
-                sc.propagateTo(datetimeToJulianDate(t0 + timedelta(seconds=m * dt)))
+                extra = offs[mi] if mi < len(marks) - 1 and mi < len(offs) else 0
+                sc.propagateTo(datetimeToJulianDate(t0 + timedelta(seconds=m * dt + extra)))
         rows = kit.raw_sql("select agent_id, julian_date, pos_x_km, pos_y_km, pos_z_km, vel_x_km_p_sec, vel_y_km_p_sec, vel_z_km_p_sec from truth_ephemerides")
         jd0 = float(datetimeToJulianDate(t0))
         db = {}
@@ -200,6 +205,8 @@ def variants(c, rec):
             rec.nontrivial([hash(str(c["targets"]) + c["start"]) % 10**6, tuple(cats)])
         for cat in cats:
             rec.label("cat:" + cat)
+        if "split" in cats and any(int(f * c["dt"]) for f in v.get("split_off", [])[:len(set(v["split"]))]):
+            rec.label("split_call_off_the_step_grid")
         rec.label(f"midrun_additions:{len(c.get('adds', []))}")
         rec.label("srp_on" if c.get("srp") else "srp_off")
         rec.label("base_removes_a_target" if c.get("removal") else "no_removal_event")
